@@ -256,6 +256,13 @@ func c11Case(env *Env, tape *sim.Tape) *CaseOut {
 	}
 	failOn := 1 + tape.Draw(3)
 	failAfter := tape.Draw(6)
+	// the failing stub's error: a plain sentinel, or one that wraps the registry's own
+	// not-exist sentinel (a minifier that delegates to a helper type which is not registered):
+	// it was found and ran, so it failed; only the bare sentinel means "no minifier"
+	stubErr := ErrStubFailed
+	if tape.Draw(3) == 0 {
+		stubErr = fmt.Errorf("stub minifier: helper type missing: %w", minify.ErrNotExist)
+	}
 
 	var calls []c11Call
 	counts := map[string]int{}
@@ -287,7 +294,7 @@ func c11Case(env *Env, tape *sim.Tape) *CaseOut {
 						k = len(b)
 					}
 					w.Write(b[:k])
-					return ErrStubFailed
+					return stubErr
 				}
 				_, err = w.Write(b)
 				return err
@@ -403,7 +410,7 @@ func c11Case(env *Env, tape *sim.Tape) *CaseOut {
 				}
 				if nth == failOn {
 					stubFailed = true
-					if !errors.Is(hostErr, ErrStubFailed) {
+					if !errors.Is(hostErr, stubErr) {
 						if s.Via == "datauri" {
 							return fail("embedded-failure-swallowed", "datauri", fmt.Sprintf("the minifier for the %s payload failed but the outer call returned %v", s.Ctx, hostErr))
 						}
